@@ -260,7 +260,8 @@ def run(ck, F, tier):
     ck.explanation = ('C15 decided structurally on MIR of the decode closure: M7 the macroblock loop is bounded by the macroblock count (exit test '
                       'dominating the macroblock parse); RS the resynchronisation probe is a union transaction whose Ok(None) arm leaves the loop without '
                       'consuming and is used only outside Sorenson mode; T7 (shared with C05) a failed macroblock parse consumes nothing; CM single '
-                      'commit after the loop with no reader movement in between. Together: on success the position is the end of the last macroblock.')
+                      'commit after the loop with no reader movement in between; MB / C12.C the macroblock and block layer consume exactly the bits of their syntax elements. '
+                      'Together: on success the position is the end of the last macroblock.')
     ck.assumptions += ['a picture holds exactly mb_per_line*mb_height macroblocks (H.263 5.3; stuffing codes excluded)']
     try:
         r = m7_count_bound(ck, F)
@@ -285,3 +286,8 @@ def run(ck, F, tier):
     c14.f_start_code(s14, F)
     picture_start(ck, F)
     macroblock_count(ck, F)
+    # "the end of that picture's macroblock data" is where the macroblock and block layer syntax of 5.3 / 5.4 ends: a bit attributed to the wrong
+    # syntax element (a DQUANT not read, a table with a wrong code length) leaves the reader inside or past the picture - the MB rules, re-run here
+    from . import mblayer, c12
+    mblayer.run_for(ck, F, 'MB.', ['tcoef', 'mcbpc_i', 'mcbpc_p', 'cbpy'], ['macroblock', 'dquant', 'mv', 'block'])
+    c12.c_mvd_table(Scoped(ck, 'C12.'), F)
